@@ -17,3 +17,7 @@ TEXT = {'technique': 'differential property testing (rapid): same generated hist
  'level_note': 'Trusts the model only for gating preconditions; the verdict is the backend-vs-backend comparison. Real temp directories under TMPDIR '
                'are used.',
  'design_ref': 'DESIGN.md 4/C02'}
+
+# native coverage-guided campaign over the rapid generator (hx.FuzzRapid), thorough tier only
+CHECK['tiers']['thorough'].append({'test': '^$', 'fuzz': '^FuzzPairHistory$', 'fuzztime': '90s', 'gomaxprocs': 4, 'timeout': 400})
+TEXT['technique'] += '; thorough adds a native coverage-guided go fuzzing campaign over the same generator (rapid.MakeFuzz)'
